@@ -507,6 +507,8 @@ namespace verif
         unsigned nops = unsigned(c.range(2, 28));
         for (unsigned op = 0; op < nops; ++op)
         {
+            if (c.exhausted() && op >= 2)
+                break; // an exhausted stream would only append "create pending" operations
             unsigned kind = c.pick(16);
             std::string opdesc;
             try
@@ -514,7 +516,9 @@ namespace verif
                 if (kind <= 1 && R.ints.size() < 40)
                 {
                     // ---- create base Promise<int> ------------------------------------------------
-                    unsigned mode = c.pick(3);
+                    unsigned mode = c.pick(4);
+                    if (mode == 3)
+                        mode = 0;
                     int m         = new_model(true, 0);
                     if (mode == 0)
                     {
@@ -572,6 +576,19 @@ namespace verif
                 else if (kind <= 6 && !R.ints.empty() && R.ints.size() < 40 && R.voids.size() < 40 && W.mc.size() < 200)
                 {
                     size_t i   = c.pick(uint32_t(R.ints.size()));
+                    if (c.coin(128))
+                    {
+                        // prefer a promise that is still pending (attach-before-settle)
+                        for (size_t t = 0; t < R.ints.size(); ++t)
+                        {
+                            size_t j = (i + t) % R.ints.size();
+                            if (W.mp[R.int_model[j]].st == Pend)
+                            {
+                                i = j;
+                                break;
+                            }
+                        }
+                    }
                     Kind k     = Kind(c.pick(3));
                     RejKind rk = RejKind(c.pick(3));
                     int k3mode = int(c.pick(3)), k3val = k3mode == 1 ? next_exc++ : int(c.pick(50));
@@ -800,8 +817,9 @@ namespace verif
             if (v.kind != Verdict::Pass)
                 return v;
         }
-        rep.label("ops<=" + std::string(nops <= 6 ? "6" : nops <= 14 ? "14"
-                                                                      : "28"));
+        size_t done_ops = std::count(prog.begin(), prog.end(), ';');
+        rep.label("ops<=" + std::string(done_ops <= 6 ? "6" : done_ops <= 14 ? "14"
+                                                                              : "28"));
         if (has_comb)
             rep.label("has-combinator");
         if (max_depth >= 2)
